@@ -50,7 +50,21 @@ DOCS = [
     # a well-formed document that declares nothing at all
     [],
 ]
-EXPECTED = [D.expected(DOCS[0]), D.expected(DOCS[1]), None, D.expected(DOCS[3])]
+NSWEEP = 4        # documents 0..3 take part in the history sweeps
+# SIZE: document 4 declares 200 things (240 distinct names) with distinct names and type spellings between two out-events; it takes part in
+# its own family of histories only
+_BIG = [['interface', 'First', [], [['o', 'out', ['void'], []]]]]
+for _i in range(40):
+    # 40 x 6 = 240 distinct names and type spellings with no 'void' among them ...
+    _BIG.append(['ns', [f'Ns{_i % 40}'], [
+        ['interface', f'I{_i}', [['enum', f'R{_i}', ['Ok']]], [['e', 'in', [f'R{_i}'], [['a', [f'X{_i}'], 'in']]]]],
+        ['extern', f'X{_i}', f'type{_i}'], ['enum', f'E{_i}', [f'F{_i}']],
+        ['component', f'C{_i}', [['p', [f'I{_i}'], 'provides', False]]]]])
+    _BIG.append(['subint', f'Big{_i}', _i, _i + 1])
+# ... and only then the next out-event
+_BIG.append(['interface', 'Last', [], [['o', 'out', ['void'], [['a', ['X1'], 'in']]], ['i', 'in', ['void'], []]]])
+DOCS.append(_BIG)
+EXPECTED = [D.expected(DOCS[0]), D.expected(DOCS[1]), None, D.expected(DOCS[3]), D.expected(DOCS[4])]
 
 _TMP = {}
 _ALONE = {}
@@ -63,9 +77,12 @@ def alone(doc):
         from dznpy.json_ast import DznJsonAst  # pylint: disable=import-outside-toplevel
         for k, d in enumerate(DOCS):
             if EXPECTED[k] is not None:
-                with contextlib.redirect_stdout(io.StringIO()):
-                    _ALONE[k] = DznJsonAst(json.dumps(D.to_json(d))).process()
-    return _ALONE[doc]
+                try:
+                    with contextlib.redirect_stdout(io.StringIO()):
+                        _ALONE[k] = DznJsonAst(json.dumps(D.to_json(d))).process()
+                except Exception:  # pylint: disable=broad-except
+                    _ALONE[k] = None        # reported by the history that parses this document ('valid-document-failed')
+    return _ALONE.get(doc)
 
 
 
@@ -87,7 +104,7 @@ def cleanup():
 def ops_alphabet(nslots):
     ops = []
     for slot in range(nslots):
-        for doc in range(len(DOCS)):
+        for doc in range(NSWEEP):
             ops.append(['new', slot, doc])       # fresh instance constructed with the contents
             ops.append(['reload', slot, doc])    # load_file on the EXISTING instance of the slot (fresh one if none)
         for doc in (0, 1, 3):
@@ -159,7 +176,7 @@ def run_history(ops):
                         key = 'reprocess-accumulates' if nth > 1 and _doubled(EXPECTED[doc], got) \
                             else f'result-differs:{cont}'
                         out.append((key, f'op {i} {op}: {what} | history={ops}'))
-                    elif res != alone(doc) or repr(res) != repr(alone(doc)):
+                    elif alone(doc) is not None and (res != alone(doc) or repr(res) != repr(alone(doc))):
                         out.append(('result-differs-from-parsing-alone-in-an-attribute',
                                     f'op {i} {op}: same declarations, but the result does not compare equal to the one '
                                     f'of a fresh parser (e.g. the namespace-tree links) | history={ops}'))
@@ -225,8 +242,14 @@ def work(job):
         elif kind == 'single':
             # ONE parser instance, longer histories: constructed with document d0, then every sequence of
             # load_file(d) / process() of exactly `depth` operations
-            single_ops = [['reload', 0, d] for d in range(len(DOCS))] + [['process', 0]]
+            single_ops = [['reload', 0, d] for d in range(NSWEEP)] + [['process', 0]]
             for tail in itertools.product(single_ops, repeat=depth):
+                hist = [list(o) for o in prefix_ops] + [list(o) for o in tail]
+                _one(hist, part)
+        elif kind == 'big':
+            # one or two instances, the big document and a small one: every sequence of `depth` operations
+            big_ops = [['reload', 0, 4], ['reload', 0, 0], ['process', 0], ['new', 1, 1], ['process', 1], ['reload', 1, 4]]
+            for tail in itertools.product(big_ops, repeat=depth):
                 hist = [list(o) for o in prefix_ops] + [list(o) for o in tail]
                 _one(hist, part)
     finally:
@@ -284,14 +307,17 @@ def explore(ctx):
         else:
             jobs += [('sweep', [list(o)], nslots, d) for o in ops]
     single_depth = 7 if ctx.thorough else 6
-    for d0 in range(len(DOCS)):
+    for d0 in range(NSWEEP):
         for d in range(2, single_depth + 1):
             if d <= 4:
                 jobs.append(('single', [['new', 0, d0]], 1, d))
             else:
                 # split the big levels by their first operation
-                for first in [['reload', 0, k] for k in range(len(DOCS))] + [['process', 0]]:
+                for first in [['reload', 0, k] for k in range(NSWEEP)] + [['process', 0]]:
                     jobs.append(('single', [['new', 0, d0], first], 1, d - 1))
+    for first in ([['new', 0, 4]], [['new', 0, 0]], [['new', 0, 4], ['process', 0]], [['new', 0, 0], ['process', 0]]):
+        for d in (1, 2, 3):
+            jobs.append(('big', first, 2, d))
     for part in pmap(work, jobs):
         part.states = part.evaluations   # un-pruned: every history is its own state
         ctx.merge(part)
